@@ -574,6 +574,123 @@ def gen_facade(mods):
     return "\n".join(lines), dict(methods=methods, attach_table=table, unknown=unknown)
 
 
+def gen_footprint(mods):
+    """whole-scan of the command modules for run-time writes to state shared between command objects:
+    attributes of class objects, module globals, and the caller's own dict/list arguments"""
+    from translate import HEADER, coq_str, src_of
+    shared, params = [], []
+    classnames = set()
+    for m in mods:
+        for n in m.tree.body:
+            if isinstance(n, ast.ClassDef):
+                classnames.add(n.name)
+    MUT = {"update", "append", "extend", "pop", "clear", "setdefault", "insert", "remove", "popitem", "sort", "reverse"}
+    for mod in mods:
+        if not (mod.stem == "scsi_command" or mod.stem.startswith("scsi_cdb_")):
+            continue
+
+        def scan(fn, owner):
+            pnames = {a.arg for a in fn.args.args + fn.args.kwonlyargs if a.arg not in ("self", "cls")}
+            if fn.args.vararg:
+                pnames.add(fn.args.vararg.arg)
+            if fn.args.kwarg:
+                pnames.add(fn.args.kwarg.arg)
+            alias = set(pnames)
+            local = set()
+            where = "%s.%s%s" % (mod.stem, (owner + ".") if owner else "", fn.name)
+            for node in ast.walk(fn):
+                if isinstance(node, ast.Assign) and len(node.targets) == 1 and isinstance(node.targets[0], ast.Name):
+                    local.add(node.targets[0].id)
+                    if isinstance(node.value, ast.Name) and node.value.id in alias:
+                        alias.add(node.targets[0].id)            # x = param  (an alias, not a copy)
+            for node in ast.walk(fn):
+                if isinstance(node, ast.Global):
+                    shared.append("%s: global %s" % (where, ", ".join(node.names)))
+                tgts = []
+                if isinstance(node, ast.Assign):
+                    tgts = node.targets
+                elif isinstance(node, (ast.AugAssign, ast.AnnAssign)):
+                    tgts = [node.target]
+                elif isinstance(node, ast.Delete):
+                    tgts = node.targets
+                for t in tgts:
+                    if isinstance(t, ast.Attribute):
+                        base = t.value
+                        if isinstance(base, ast.Name) and (base.id in classnames or base.id == "cls"):
+                            shared.append("%s: %s" % (where, src_of(node, mod.text).split("\n")[0][:90]))
+                        if isinstance(base, ast.Call) and dotted(base.func) == "type":
+                            shared.append("%s: %s" % (where, src_of(node, mod.text).split("\n")[0][:90]))
+                    if isinstance(t, ast.Subscript) and isinstance(t.value, ast.Name) and not isinstance(t.slice, ast.Slice):
+                        # (slice assignment fills a byte buffer the library itself allocated; item assignment changes a dict/list)
+                        if t.value.id in alias:
+                            params.append("%s: %s" % (where, src_of(node, mod.text).split("\n")[0][:90]))
+                        elif t.value.id not in local and t.value.id not in ("self",):
+                            shared.append("%s: %s" % (where, src_of(node, mod.text).split("\n")[0][:90]))
+                    if isinstance(t, ast.Subscript) and isinstance(t.value, ast.Attribute) and isinstance(t.value.value, ast.Name) \
+                            and (t.value.value.id in classnames or t.value.value.id == "cls"):
+                        shared.append("%s: %s" % (where, src_of(node, mod.text).split("\n")[0][:90]))
+                if isinstance(node, ast.Call):
+                    d = dotted(node.func)
+                    if d == "setattr" and node.args and isinstance(node.args[0], ast.Name) \
+                            and (node.args[0].id in classnames or node.args[0].id == "cls"):
+                        shared.append("%s: %s" % (where, src_of(node, mod.text)[:90]))
+                    if isinstance(node.func, ast.Attribute) and node.func.attr in MUT and isinstance(node.func.value, ast.Name):
+                        if node.func.value.id in pnames:
+                            params.append("%s: %s" % (where, src_of(node, mod.text).split("\n")[0][:90]))
+            for d in fn.args.defaults + fn.args.kw_defaults:
+                if isinstance(d, (ast.List, ast.Dict, ast.Set)) or (isinstance(d, ast.Call) and dotted(d.func) in ("bytearray", "list", "dict", "set")):
+                    pass   # a mutable default is only a problem if it is mutated: covered by the parameter-mutation scan above
+
+        for node in mod.tree.body:
+            if isinstance(node, ast.FunctionDef):
+                scan(node, "")
+            if isinstance(node, ast.ClassDef):
+                for f in node.body:
+                    if isinstance(f, ast.FunctionDef):
+                        scan(f, node.name)
+    # a helper that mutates its parameter is harmless when every call site hands it a fresh copy
+    # (n = dict(...), n = x.copy(), n = {...} in the calling function)
+    def fresh_at_all_call_sites(fname, pidx):
+        sites = 0
+        for mod in mods:
+            for fn in ast.walk(mod.tree):
+                if not isinstance(fn, ast.FunctionDef):
+                    continue
+                fresh_names = set()
+                for node in ast.walk(fn):
+                    if isinstance(node, ast.Assign) and len(node.targets) == 1 and isinstance(node.targets[0], ast.Name):
+                        v = node.value
+                        if isinstance(v, ast.Dict) or (isinstance(v, ast.Call) and (dotted(v.func) in ("dict", "copy.deepcopy", "copy.copy", "list")
+                                                       or (isinstance(v.func, ast.Attribute) and v.func.attr == "copy"))):
+                            fresh_names.add(node.targets[0].id)
+                for node in ast.walk(fn):
+                    if isinstance(node, ast.Call) and isinstance(node.func, ast.Attribute) and node.func.attr == fname:
+                        sites += 1
+                        if pidx >= len(node.args) or not (isinstance(node.args[pidx], ast.Name) and node.args[pidx].id in fresh_names):
+                            return False
+        return sites > 0
+    kept = []
+    for entry in params:
+        where, stmt = entry.split(": ", 1)
+        fname = where.split(".")[-1]
+        target = stmt.split("[")[0].split(".")[0].strip()
+        idx = None
+        for mod in mods:
+            for fn in ast.walk(mod.tree):
+                if isinstance(fn, ast.FunctionDef) and fn.name == fname:
+                    names = [a.arg for a in fn.args.args if a.arg not in ("self", "cls")]
+                    if target in names:
+                        idx = names.index(target)
+        if idx is not None and fresh_at_all_call_sites(fname, idx):
+            continue
+        kept.append(entry)
+    params = kept
+    lines = [HEADER.format(src="scsi_command.py and every scsi_cdb_*.py (footprint scan)", extra="")]
+    lines.append("Definition shared_writes : list string := [%s].\n" % ";\n  ".join(coq_str(x) for x in shared))
+    lines.append("Definition param_mutations : list string := [%s].\n" % ";\n  ".join(coq_str(x) for x in params))
+    return "\n".join(lines), dict(shared_writes=shared, param_mutations=params)
+
+
 def gen_misc(mods):
     from translate import HEADER, coq_str, const_int, src_of
     lines = [HEADER.format(src="scsi_command.py (init_cdb), scsi.py (attach table), iscsi_device.py (status dispatch)",
@@ -590,6 +707,15 @@ def gen_misc(mods):
     ok = fn is not None
     if ok:
         body = [s for s in fn.body if not (isinstance(s, ast.Expr) and isinstance(s.value, ast.Constant))]
+        # optional first statement:  value = getattr(opcode, "value", opcode)   (accepts an OpCode object or its value)
+        valvar = None
+        if body and isinstance(body[0], ast.Assign) and len(body[0].targets) == 1 and isinstance(body[0].targets[0], ast.Name) \
+                and isinstance(body[0].value, ast.Call) and dotted(body[0].value.func) == "getattr" and len(body[0].value.args) == 3 \
+                and isinstance(body[0].value.args[0], ast.Name) and body[0].value.args[0].id == fn.args.args[0].arg \
+                and isinstance(body[0].value.args[1], ast.Constant) and body[0].value.args[1].value == "value" \
+                and isinstance(body[0].value.args[2], ast.Name) and body[0].value.args[2].id == fn.args.args[0].arg:
+            valvar = body[0].targets[0].id
+            body = body[1:]
         if not (len(body) == 2 and isinstance(body[0], ast.If) and isinstance(body[1], ast.Return)
                 and isinstance(body[1].value, ast.Name)):
             ok = False
@@ -599,9 +725,10 @@ def gen_misc(mods):
             while True:
                 t = node.test
                 rng = None
-                if (isinstance(t, ast.Compare) and len(t.ops) == 2 and all(isinstance(o, ast.LtE) for o in t.ops)
-                        and isinstance(t.comparators[0], ast.Attribute) and t.comparators[0].attr == "value"
-                        and isinstance(t.comparators[0].value, ast.Name) and t.comparators[0].value.id == fn.args.args[0].arg):
+                mid = t.comparators[0] if isinstance(t, ast.Compare) and t.comparators else None
+                is_value = (isinstance(mid, ast.Attribute) and mid.attr == "value" and isinstance(mid.value, ast.Name)
+                            and mid.value.id == fn.args.args[0].arg) or (valvar is not None and isinstance(mid, ast.Name) and mid.id == valvar)
+                if isinstance(t, ast.Compare) and len(t.ops) == 2 and all(isinstance(o, ast.LtE) for o in t.ops) and is_value:
                     lo, hi = const_int(t.left), const_int(t.comparators[1])
                     if lo is not None and hi is not None and lo >= 0 and hi >= 0:
                         rng = (lo, hi)
